@@ -386,7 +386,9 @@ def runEdgeCallback (env : Env) (e : Nat) (childIndex : Nat) : M Unit := do
 
 def observabilityChange (e : Nat) (nowObservable : Bool) : M Unit := do
   let er ← getExpert e
-  if er.pk.isNone then logEv (.note s!"obschange n{er.node} {nowObservable}")
+  if er.pk.isNone then
+    -- the user's callback can see whether the engine is stabilising (`is_stabilising()`)
+    logEv (.note s!"obschange n{er.node} {nowObservable} stab={(← get).status != .notStabilising}")
   if !nowObservable then
     modExpert e fun x => { x with willFireAllCallbacks := true, numInvalidChildren := 0 }
 
